@@ -237,6 +237,16 @@ def run(repo: Repo, rep: Report, tier: str) -> None:
                         if isinstance(n, ast.Call) and isinstance(n.func, ast.Attribute) and isinstance(n.func.value, ast.Name) and n.func.value.id == name and n.func.attr in ("append", "add", "update", "pop", "clear", "setdefault"):
                             if name not in f.params and not any(isinstance(x, ast.Assign) and any(isinstance(t, ast.Name) and t.id == name for t in x.targets) for x in walk_local(f.node)):
                                 mut_globals.append((f, n, name))
+                        # ... or through a local that is just another name for it (`excluded = TABLE; excluded.update(...)`)
+                        if isinstance(n, ast.Call) and isinstance(n.func, ast.Attribute) and isinstance(n.func.value, ast.Name) and n.func.value.id != name \
+                                and n.func.attr in ("append", "add", "update", "pop", "clear", "setdefault", "extend", "discard", "remove") and name not in f.params:
+                            from .util import canon as _canon19
+                            try:
+                                alts19 = _canon19(f).alts(n.func.value)
+                            except Exception:
+                                alts19 = []
+                            if name in alts19:
+                                mut_globals.append((f, n, f"{name} (through a local alias)"))
     # class-level mutables (assigned in the class body, never re-bound per instance) are process-global state as well
     for m in repo.modules.values():
         if ".src." not in m.name:
